@@ -165,6 +165,26 @@ class C06(vlib.Check):
             b2 = gen_fp(rng, kb, bits * 2, level=5, maxn=6)
             for form in ("fp-fp", "fp-db", "db-db", "fprint_metrics", "dense", "sparse"):
                 yield {"t": "mismatch", "m": rng.choice(MEASURES), "form": form, "a": a, "b": b2}
+        # every ordered pair of kinds with overlapping supports and non-unit values: the dispatch treats mixed kinds without
+        # a common cast (only tanimoto / dice cast to bit), so the operand order matters to the route taken
+        for ka in KINDS:
+            for kb in KINDS:
+                for _ in range(2 if self.tier == "quick" else 12):
+                    bits = rng.choice([32, 64, 1024])
+                    common = sorted(rng.sample(range(bits), rng.randint(2, 6)))
+                    def mk(kind):
+                        own = rng.sample(range(bits), rng.randint(0, 4))
+                        idx = sorted(set(common) | set(own))
+                        if kind == "bit":
+                            return {"kind": kind, "bits": bits, "level": 5, "idx": idx, "cnt": []}
+                        vals = [rng.choice(["2", "3", "5", "7", "12"]) if kind == "count" else rng.choice(["3/2", "5/4", "7", "1/2", "9/8"])
+                                for _ in idx]
+                        return {"kind": kind, "bits": bits, "level": 5, "idx": idx, "cnt": [[i, v] for i, v in zip(idx, vals)]}
+                    a, b = mk(ka), mk(kb)
+                    self.count("mixed:%s-%s" % (ka, kb))
+                    for m in MEASURES:
+                        for form in ("fp-fp", "fp-db", "db-fp", "db-db", "dbarr-dbarr", "fprint_metrics"):
+                            yield {"t": "metric", "m": m, "form": form, "a": a, "b": b, "seed": rng.randrange(10 ** 6)}
         # large unfolded fingerprints: fingerprint forms only
         for _ in range(n // 3):
             ka = rng.choice(KINDS)
